@@ -193,6 +193,10 @@ class ByteChanSpec(Spec):
             return case
         r = rng.random()
         p_tr, p_fl, win = self.sweep_thorough if tier == "thorough" else self.sweep_quick
+        wide = "cfg" in case and max(case["cfg"].get("w", 0), case["cfg"].get("h", 0)) > 1000
+        if wide:
+            # seconds per execution: no enumeration, mostly fault-free
+            p_tr = p_fl = 0.0
         if "raw" not in case and len(data) > 0 and r < p_tr + p_fl:
             case["faults"] = []
             # cost bound: (single-fault executions) x (stream bytes) stays below
@@ -218,6 +222,8 @@ class ByteChanSpec(Spec):
             nf = rng.randrange(3, 7)
         if "hist" in case and rng.random() < 0.5:
             nf = 0  # the history's own structural faults are the faults
+        if wide and rng.random() < 0.6:
+            nf = 0
         k = rng.randrange(2, 9)
         enabled = rng.sample(self.fault_kinds, min(k, len(self.fault_kinds)))
         fmap = F.field_map(data) if ("cfg" in case or "tc" in case or "hist" in case) else None
